@@ -369,4 +369,17 @@ MUTANTS = [
     {"id": "C17-give-back-reserve-then-push-back", "prop": "C17", "expect": "EVENT-ORDER", "edits": [
         (U, "                    for event in queue.into_iter().rev() {\n                        self.events_queue.push_front(event);\n",
          "                    self.events_queue.reserve(queue.len());\n                    for event in queue.into_iter() {\n                        self.events_queue.push_back(event);\n")]},
+    # ---- EPILOGUE: commands built by a local closure / nested constructor fn / hoisted locals (decided where the value is built) ------
+    {"id": "C17-benign-epilogue-closure-ctor", "prop": "C17", "benign": True, "edits": [
+        (U, '        self.execute_many([\n            TerminalCommand::Face(Default::default()),\n', '        let dec_mode_off = |mode| TerminalCommand::DecModeSet {\n            enable: false,\n            mode,\n        };\n        self.execute_many([\n            TerminalCommand::Face(Default::default()),\n'), (U, '            TerminalCommand::DecModeSet {\n                enable: false,\n                mode: DecMode::MouseMotions,\n            },\n            TerminalCommand::DecModeSet {\n                enable: false,\n                mode: DecMode::MouseSGR,\n            },\n            TerminalCommand::DecModeSet {\n                enable: false,\n                mode: DecMode::MouseReport,\n            },\n', '            dec_mode_off(DecMode::MouseMotions),\n            dec_mode_off(DecMode::MouseSGR),\n            dec_mode_off(DecMode::MouseReport),\n')]},
+    {"id": "C17-benign-epilogue-nested-fn-ctor", "prop": "C17", "benign": True, "edits": [
+        (U, '        self.execute_many([\n            TerminalCommand::Face(Default::default()),\n', '        fn dec_mode_off(mode: DecMode) -> TerminalCommand {\n            let enable = false;\n            TerminalCommand::DecModeSet { enable, mode }\n        }\n        self.execute_many([\n            TerminalCommand::Face(Default::default()),\n'), (U, '            TerminalCommand::DecModeSet {\n                enable: false,\n                mode: DecMode::MouseMotions,\n            },\n            TerminalCommand::DecModeSet {\n                enable: false,\n                mode: DecMode::MouseSGR,\n            },\n            TerminalCommand::DecModeSet {\n                enable: false,\n                mode: DecMode::MouseReport,\n            },\n', '            dec_mode_off(DecMode::MouseMotions),\n            dec_mode_off(DecMode::MouseSGR),\n            dec_mode_off(DecMode::MouseReport),\n')]},
+    {"id": "C17-benign-epilogue-hoisted-commands", "prop": "C17", "benign": True, "edits": [
+        (U, '        self.execute_many([\n            TerminalCommand::Face(Default::default()),\n', '        let sgr = DecMode::MouseSGR;\n        let sgr_off = TerminalCommand::DecModeSet {\n            enable: false,\n            mode: sgr,\n        };\n        let motions_off = TerminalCommand::DecModeSet {\n            mode: DecMode::MouseMotions,\n            enable: false,\n        };\n        self.execute_many([\n            TerminalCommand::Face(Default::default()),\n'), (U, '            TerminalCommand::DecModeSet {\n                enable: false,\n                mode: DecMode::MouseMotions,\n            },\n            TerminalCommand::DecModeSet {\n                enable: false,\n                mode: DecMode::MouseSGR,\n            },\n            TerminalCommand::DecModeSet {\n                enable: false,\n                mode: DecMode::MouseReport,\n            },\n', '            motions_off,\n            sgr_off,\n            TerminalCommand::DecModeSet {\n                enable: false,\n                mode: DecMode::MouseReport,\n            },\n')]},
+    {"id": "C17-epilogue-closure-ctor-enables", "prop": "C17", "expect": "EPILOGUE/unix::UnixTerminal::dispose/missing-Mouse", "edits": [
+        (U, '        self.execute_many([\n            TerminalCommand::Face(Default::default()),\n', '        let dec_mode_off = |mode| TerminalCommand::DecModeSet {\n            enable: true,\n            mode,\n        };\n        self.execute_many([\n            TerminalCommand::Face(Default::default()),\n'), (U, '            TerminalCommand::DecModeSet {\n                enable: false,\n                mode: DecMode::MouseMotions,\n            },\n            TerminalCommand::DecModeSet {\n                enable: false,\n                mode: DecMode::MouseSGR,\n            },\n            TerminalCommand::DecModeSet {\n                enable: false,\n                mode: DecMode::MouseReport,\n            },\n', '            dec_mode_off(DecMode::MouseMotions),\n            dec_mode_off(DecMode::MouseSGR),\n            dec_mode_off(DecMode::MouseReport),\n')]},
+    {"id": "C17-epilogue-closure-ctor-ignores-mode", "prop": "C17", "expect": "EPILOGUE/unix::UnixTerminal::dispose/missing-MouseMotions", "edits": [
+        (U, '        self.execute_many([\n            TerminalCommand::Face(Default::default()),\n', '        let dec_mode_off = |_mode: DecMode| TerminalCommand::DecModeSet {\n            enable: false,\n            mode: DecMode::MouseSGR,\n        };\n        self.execute_many([\n            TerminalCommand::Face(Default::default()),\n'), (U, '            TerminalCommand::DecModeSet {\n                enable: false,\n                mode: DecMode::MouseMotions,\n            },\n            TerminalCommand::DecModeSet {\n                enable: false,\n                mode: DecMode::MouseSGR,\n            },\n            TerminalCommand::DecModeSet {\n                enable: false,\n                mode: DecMode::MouseReport,\n            },\n', '            dec_mode_off(DecMode::MouseMotions),\n            dec_mode_off(DecMode::MouseSGR),\n            dec_mode_off(DecMode::MouseReport),\n')]},
+    {"id": "C17-epilogue-closure-ctor-wrong-mode-passed", "prop": "C17", "expect": "EPILOGUE/unix::UnixTerminal::dispose/missing-MouseSGR", "edits": [
+        (U, '        self.execute_many([\n            TerminalCommand::Face(Default::default()),\n', '        let dec_mode_off = |mode| TerminalCommand::DecModeSet {\n            enable: false,\n            mode,\n        };\n        self.execute_many([\n            TerminalCommand::Face(Default::default()),\n'), (U, '            TerminalCommand::DecModeSet {\n                enable: false,\n                mode: DecMode::MouseMotions,\n            },\n            TerminalCommand::DecModeSet {\n                enable: false,\n                mode: DecMode::MouseSGR,\n            },\n            TerminalCommand::DecModeSet {\n                enable: false,\n                mode: DecMode::MouseReport,\n            },\n', '            dec_mode_off(DecMode::MouseMotions),\n            dec_mode_off(DecMode::MouseReport),\n            dec_mode_off(DecMode::MouseReport),\n')]},
 ]
